@@ -209,7 +209,7 @@ def cal_grass(index, rep, start):
 
         def runit(it):
             it.classes = {"MeatAndDairy": cls}
-            it.path_alias = {("c", "NMONTHS"): Rat.const(N)}
+            it.path_alias = {("c", "NMONTHS"): Rat.const(N), ("c", "STARTING_MONTH_NUM"): Rat.const(start)}
 
             def h(interp, d, a, kw, node):
                 r = hook(interp, d, a, kw, node)
@@ -880,7 +880,32 @@ def delay_greenhouse(index, rep, area_rule="C08.DELAY", len_rule="C08.LEN"):
 
     res, fn = run_method(index, GH, "Greenhouses", "get_greenhouse_area", attrs, [Path(("c",)), oc], extra_hook=hook)
     done = False
+    # written over whole arrays (positions = np.arange(NMONTHS), np.clip ...): every path of the evaluation describes the generic entry i
+    # of one run of NMONTHS entries under the conditions it met; compared piece by piece with the documented build-out
+    from .symx import EIDX, constraints_of
+    from .rat import piecewise_mismatch
+    i_ = Rat.atom(EIDX)
+    d0 = Rat.atom(("gh_delay",)) + Rat.const(5)
+    mult_ = Rat.atom(("mult",))
+    spec = [(None, d0, Rat.const(0)), (d0, d0 + Rat.const(36), mult_ * (i_ - d0) / Rat.const(36)), (d0 + Rat.const(36), None, mult_)]
+    generic = []
     for dec, r, obj, it in res:
+        frac = obj.attrs.get("greenhouse_fraction_area")
+        segs = _segs(frac) if frac is not None else None
+        if segs and len(segs) == 1 and it.to_rat(segs[0][1]) == Rat.atom(NSYM) and EIDX in {a_ for a_ in it.to_rat(segs[0][0]).atoms()} | {EIDX} \
+                and any("elem-index" in k_ for k_ in dec):
+            generic.append((constraints_of(it, dec) + [(Rat.atom(("area",)), ">"), (mult_, ">"), (Rat.atom(("gh_delay",)), ">=")], it.to_rat(segs[0][0])))
+    if generic:
+        done = True
+        why = piecewise_mismatch(generic, spec, EIDX, extra=[(i_, ">=")])
+        rep.check(why is None, area_rule, "greenhouse area is zero for delay + 5 months (ramp starts from 0)",
+                  f"greenhouse share of cropland, entry i: {why}", loc=loc(GH, fn))
+        rep.check(why is None, area_rule, "greenhouse share rises monotonically from 0 to the configured multiplier",
+                  f"the greenhouse share of cropland is not the 36-month linear build-out to GREENHOUSE_AREA_MULTIPLIER: {why}", loc=loc(GH, fn))
+        rep.ok(len_rule, "greenhouse area: cut to NMONTHS", detail="one run of NMONTHS entries")
+    for dec, r, obj, it in res:
+        if generic:
+            break
         frac = obj.attrs.get("greenhouse_fraction_area")
         segs = _segs(frac) if frac is not None else None
         if not segs or len(segs) < 10:
@@ -915,6 +940,23 @@ def delay_greenhouse(index, rep, area_rule="C08.DELAY", len_rule="C08.LEN"):
         if not (segs and all(it.to_rat(f).is_zero() for f, n in segs)):
             okz = False
     rep.check(okz, area_rule, "no greenhouses => zero area share", "without greenhouses the area share is not identically zero", loc=loc(GH, fn))
+    # no cropland => nothing is taken from the outdoor crops for greenhouses: the share is identically zero
+    attrs3 = dict(attrs)
+    attrs3["TOTAL_CROP_AREA"] = Rat.const(0)
+    try:
+        res3, _ = run_method(index, GH, "Greenhouses", "get_greenhouse_area", attrs3, [Path(("c",)), oc], extra_hook=hook)
+    except AnalysisError:
+        res3 = []
+    ok0 = bool(res3)
+    for dec, r, obj, it in res3:
+        if isinstance(r, Abort):
+            continue
+        frac = obj.attrs.get("greenhouse_fraction_area")
+        segs = _segs(frac) if frac is not None else None
+        if not (segs and all(it.to_rat(f).is_zero() for f, n in segs)):
+            ok0 = False
+    rep.check(ok0, area_rule, "no cropland => zero area share", "a country without cropland still has a non-zero greenhouse share of cropland: outdoor "
+              "output is reduced for greenhouses that cover no area", loc=loc(GH, fn))
 
 
 def delay_seaweed(index, rep):
